@@ -261,7 +261,7 @@ func (join *JoinTable) saveLeft(row *Row) error {
 	if err != nil {
 		return err
 	}
-	rightrow, incache, err := join.right.findRow(rightprimary)
+	rightrow, incache, err := join.right.findRowOrDeleted(rightprimary)
 	if err != nil {
 		return err
 	}
